@@ -9,7 +9,7 @@
 From Coq Require Import String List Arith Bool ZArith.
 Import ListNotations.
 From NP Require Import Base Values Arrow Abs Kernels Logical ExtArray Codec Steps
-  Proofs_Views Proofs_Codec Proofs_Fields Proofs_Steps.
+  Proofs_Views Proofs_Codec Proofs_Fields Proofs_Steps Proofs_Extras.
 From NP Require Import Props.C03.
 
 Theorem C06_view_fields : forall p fs, inv_b p = true -> op_ok p (OViewFields fs) = true ->
@@ -43,6 +43,43 @@ Theorem C06_edits_keep_invariant : forall p o p', inv_b p = true -> op_ok p o = 
   m_step p o = Ok p' -> inv_b p' = true.
 Proof. exact step_inv. Qed.
 Print Assumptions C06_edits_keep_invariant.
+
+(* ---- the frame condition, spelled out on the specification ---- *)
+Theorem C06_same_missing_rows : forall L nm ty c, lvalidity (spec_set_field L nm ty c) = lvalidity L.
+Proof. exact spec_set_field_validity. Qed.
+Print Assumptions C06_same_missing_rows.
+
+Theorem C06_replacing_leaves_other_fields : forall L nm ty c k k',
+  length (lsch L) = length (lcols L) -> field_pos (lsch L) nm = Some k -> k' <> k -> k' < length (lcols L) ->
+  nth k' (lcols (spec_set_field L nm ty c)) [] = nth k' (lcols L) []
+  /\ nth_error (lsch (spec_set_field L nm ty c)) k' = nth_error (lsch L) k'
+  /\ length (lcols (spec_set_field L nm ty c)) = length (lcols L).
+Proof. exact spec_set_field_replace_others. Qed.
+Print Assumptions C06_replacing_leaves_other_fields.
+
+Theorem C06_adding_leaves_other_fields : forall L nm ty c, field_pos (lsch L) nm = None ->
+  lcols (spec_set_field L nm ty c) = lcols L ++ [mask_rows (lvalidity L) c]
+  /\ lsch (spec_set_field L nm ty c) = lsch L ++ [(nm, ty)].
+Proof. exact spec_set_field_add_others. Qed.
+Print Assumptions C06_adding_leaves_other_fields.
+
+Theorem C06_edited_field_holds_supplied_values : forall L nm ty c k,
+  length (lsch L) = length (lcols L) -> field_pos (lsch L) nm = Some k ->
+  nth k (lcols (spec_set_field L nm ty c)) [] = mask_rows (lvalidity L) c
+  /\ nth_error (lsch (spec_set_field L nm ty c)) k = Some (nm, ty).
+Proof. exact spec_set_field_edited. Qed.
+Print Assumptions C06_edited_field_holds_supplied_values.
+
+Theorem C06_flat_values_in_flat_order : forall L flat, length flat = sum (lrow_lengths L) ->
+  concat (spec_cut_flat L flat) = flat /\ map (@length val) (spec_cut_flat L flat) = lrow_lengths L.
+Proof. exact spec_cut_flat_roundtrip. Qed.
+Print Assumptions C06_flat_values_in_flat_order.
+
+Theorem C06_same_row_lengths : forall L nm ty c,
+  lcol_wf_b L = true -> lcols L <> [] -> map (@length val) c = lrow_lengths L ->
+  lrow_lengths (spec_set_field L nm ty c) = lrow_lengths L.
+Proof. exact spec_set_field_lengths. Qed.
+Print Assumptions C06_same_row_lengths.
 
 Example C06_hypotheses_satisfiable :
   inv_b sample_col = true
